@@ -26,7 +26,13 @@ import (
 	"time"
 )
 
-const Root = "/verif"
+// Root is the directory of the verification framework (evidence, known findings); /verif unless VERIF_ROOT is set.
+var Root = func() string {
+	if r := os.Getenv("VERIF_ROOT"); r != "" {
+		return r
+	}
+	return "/verif"
+}()
 
 // Violation is one observed refutation of a property.
 type Violation struct {
